@@ -138,8 +138,8 @@ class StmtMixin:
     def del_item(self, st, c, k, lineno):
         if base_type(c.ty) != "dict":
             raise Unsupported(f"del on {c.ty} at line {lineno}")
-        keys = self.dkeys(st, c)
-        has = z3.Contains(keys, z3.Unit(k.t))
+        self.touch_key(st, k)
+        has = self.dhas(st, c, k.t)
         ok = st.copy(); ok.assume(has)
         bad = st.copy(); bad.assume(z3.Not(has))
         out = []
@@ -156,6 +156,7 @@ class StmtMixin:
         i = z3.IndexOf(keys, z3.Unit(k.t), 0)
         st.assume(nk == z3.Concat(z3.SubSeq(keys, 0, i), z3.SubSeq(keys, i + 1, z3.Length(keys) - i - 1)))
         st.write("$dkeys", Val.r(c.t), nk)
+        st.write("$dhas", Val.r(c.t), z3.Store(st.read("$dhas", Val.r(c.t)), k.t, False))
 
     # ------------------------------------------------------------------ assignment
     def bind_target(self, st, target, val):
@@ -211,6 +212,9 @@ class StmtMixin:
                 ty = base_type(c.ty)
                 if ty == "dict":
                     self.dict_set(s2, c, key, val)
+                    f = self.entry_fact(s2, c, key, val)
+                    if f is not None:
+                        self.oblige(f"dict-inv {c.src[1]}[...] entry written at L{lineno}: {self.reg.dict_fact(base_type(c.src[0].ty), c.src[1])}", "inv-pres", f, s2, lineno)
                     return [Res(s2)]
                 if ty == "list":
                     seq = self.elems(s2, c); i = Val.i(key.t)
@@ -227,9 +231,11 @@ class StmtMixin:
         raise Unsupported(f"assignment target at line {lineno}")
 
     def dict_set(self, st, c, key, val):
+        self.touch_key(st, key)
         keys = self.dkeys(st, c)
-        has = z3.Contains(keys, z3.Unit(key.t))
+        has = self.dhas(st, c, key.t)
         st.write("$dkeys", Val.r(c.t), z3.If(has, keys, z3.Concat(keys, z3.Unit(key.t))))
+        st.write("$dhas", Val.r(c.t), z3.Store(st.read("$dhas", Val.r(c.t)), key.t, True))
         st.write("$dmap", Val.r(c.t), z3.Store(self.dmap(st, c), key.t, val.t))
 
     def ex_Assign(self, st, s):
@@ -387,6 +393,7 @@ class StmtMixin:
             et = elem_type(v.ty)
             return Iter(z3.Length(seq), lambda k: V(seq[k], et), src=v)
         if ty == "dict":
+            self.dict_link(st, v)
             seq = self.dkeys(st, v)
             kt = key_type(v.ty)
             return Iter(z3.Length(seq), lambda k: V(seq[k], kt), src=v)
@@ -404,8 +411,9 @@ class StmtMixin:
                     names.add(x.id)
         return names
 
-    def loop_frame(self, st, body_fn):
-        """fields written by one symbolic iteration (dry run in a scratch copy)"""
+    def loop_frame(self, st, body_fn, ivar=None):
+        """fields written by one symbolic iteration (dry run in a scratch copy).
+        -> (dict field -> None (whole field) | list of excluded old-object terms, allocs)"""
         n0 = len(self.obligations); u0 = len(self.undecided_paths)
         sd = self.spec_depth
         self.spec_depth += 1          # no obligations from the dry run
@@ -416,27 +424,81 @@ class StmtMixin:
             self.spec_depth = sd
         del self.obligations[n0:]
         del self.undecided_paths[u0:]
-        fields = []
+        fields = {}
         allocs = 0
+        from .solve import has_quantifier
         for r in outs:
-            for f, o in r.st.writes[w0:]:
-                if (f, None) not in fields:
-                    fields.append((f, o))
             allocs = max(allocs, r.st.nalloc - st.nalloc)
+            for f, o in r.st.writes[w0:]:
+                if f in fields and fields[f] is None:
+                    continue
+                if o is None or not z3.is_expr(o) or f.startswith("$fs_"):
+                    fields[f] = None
+                    continue
+                # written object allocated inside the loop body?  (then every old object keeps its value)
+                sol = z3.Solver(); sol.set("timeout", 1000)
+                sol.add(*[c for c in r.st.pc if not has_quantifier(c)])
+                sol.add(o < st.front)
+                if sol.check() == z3.unsat:
+                    fields.setdefault(f, [])
+                    continue
+                names = self.free_names(o)
+                if ivar is not None and (ivar in names or any(nm not in self._pre_names for nm in names if nm.startswith("ret!") or nm.startswith("hv!") or nm.startswith("v!"))):
+                    fields[f] = None
+                elif any(nm.startswith(("ret!", "hv!", "comp!", "glob!", "its!")) and nm not in self._pre_names for nm in names):
+                    fields[f] = None
+                else:
+                    lst = fields.setdefault(f, [])
+                    if not any(o.eq(x) for x in lst):
+                        lst.append(o)
         return fields, allocs
 
-    def havoc_frame(self, st, fields, names, pre_names):
-        seen = set()
-        for f, o in fields:
-            if f in seen:
-                continue
-            seen.add(f)
-            self.havoc_heap_field(st, f)
+    def havoc_frame(self, st, fields, names, pre_names, st0=None):
+        st0 = st0 or st
+        for f, excl in fields.items():
+            old = st.field(f)
+            st.havoc_field(f)
+            self.alloc_axiom(st, f)
+            if excl is not None:
+                new = st.heap[f]
+                o = z3.Int(fresh_name("o"))
+                st.assume(qforall([o], z3.Implies(z3.And(o < st0.front, *[o != x for x in excl]), z3.Select(new, o) == z3.Select(old, o)),
+                                    patterns=[z3.Select(new, o)]))
         for nm in names:
             if nm in pre_names and isinstance(pre_names[nm], V):
                 st.env[nm] = V(fresh_val(nm), pre_names[nm].ty)
             else:
                 st.env.pop(nm, None)
+
+    def alloc_axiom(self, st, f, arr=None, bound=None):
+        """every reference stored in heap array `f` denotes an allocated object (address < frontier)"""
+        arr = arr if arr is not None else st.heap[f]
+        bound = bound if bound is not None else st.front
+        o, j = z3.Int(fresh_name("o")), z3.Int(fresh_name("j"))
+        kk = z3.Const(fresh_name("k"), Val)
+        if f == "$dmap":
+            x = z3.Select(z3.Select(arr, o), kk)
+            fact = qforall([o, kk], z3.Implies(Val.is_RefV(x), Val.r(x) < bound), patterns=[x])
+        elif f in ("$elems", "$dkeys"):
+            x = z3.Select(arr, o)[j]
+            fact = qforall([o, j], z3.Implies(z3.And(0 <= j, j < z3.Length(z3.Select(arr, o)), Val.is_RefV(x)), Val.r(x) < bound), patterns=[x])
+        elif not f.startswith("$"):
+            x = z3.Select(arr, o)
+            fact = qforall([o], z3.Implies(Val.is_RefV(x), Val.r(x) < bound), patterns=[x])
+        else:
+            return None
+        if st is not None:
+            st.assume(fact)
+        return fact
+
+    def state_names(self, st):
+        names = set()
+        for v in st.env.values():
+            if isinstance(v, V):
+                names |= self.free_names(v.t)
+        for h in st.heap.values():
+            names |= self.free_names(h)
+        return names
 
     def havoc_heap_field(self, st, f):
         st.havoc_field(f)
@@ -483,6 +545,7 @@ class StmtMixin:
                     if base_type(d.ty) != "dict":
                         out += [Res(x.st, self.iter_seq(x.st, x.val, node)) if x.ok else x for x in self.ev(r.st, node)]
                         return out
+                    self.dict_link(r.st, d)
                     keys, mp = self.dkeys(r.st, d), self.dmap(r.st, d)
                     kt, vt = key_type(d.ty), elem_type(d.ty)
                     if node.func.attr == "items":
@@ -505,7 +568,7 @@ class StmtMixin:
         if it.src is not None and base_type(it.src.ty) == "set":
             qa, qb = fresh_int("qa"), fresh_int("qb")
             seq = self.elems(st0, it.src)
-            st0.assume(z3.ForAll([qa, qb], z3.Implies(z3.And(0 <= qa, qa < qb, qb < n), seq[qa] != seq[qb]), patterns=[seq[qa], seq[qb]]))
+            st0.assume(qforall([qa, qb], z3.Implies(z3.And(0 <= qa, qa < qb, qb < n), seq[qa] != seq[qb]), patterns=[z3.MultiPattern(seq[qa], seq[qb])]))
         i = fresh_int("i_" + key.replace(" ", ""))
         pre_env = dict(st0.env)
         names = self.assigned_names(s.body) | self.assigned_names([s])
@@ -515,10 +578,17 @@ class StmtMixin:
             return self.block(state, s.body)
 
         probe = st0.copy(); probe.assume(z3.And(0 <= i, i < n))
-        fields, allocs = self.loop_frame(probe, body)
+        self._pre_names = set()
+        for c in st0.pc[-60:]:
+            pass
+        self._pre_names = self.state_names(st0)
+        fields, allocs = self.loop_frame(probe, body, ivar=i.decl().name())
 
         def inv_terms(state, idx):
-            binds = {"_i": V(IntV(idx), "int")}
+            binds = {k: v for k, v in state.env.items() if isinstance(v, V)}
+            binds["_i"] = V(IntV(idx), "int")
+            if it.src is not None:
+                binds["_seq"] = it.src
             return [(e, self.spec(state, st0, e, binds)) for e in invs]
 
         for e, f in inv_terms(st0, z3.IntVal(0)):
@@ -527,8 +597,9 @@ class StmtMixin:
         out = []
         # arbitrary iteration
         sh = st0.copy()
-        self.havoc_frame(sh, fields, names, pre_env)
-        sh.nalloc += 0
+        if allocs:
+            nf = fresh_int('front'); sh.assume(nf >= st0.front); sh.front = nf
+        self.havoc_frame(sh, fields, names, pre_env, st0)
         sh.assume(z3.And(0 <= i, i < n))
         self.loop_unchanged(sh, st0, it)
         for e, f in inv_terms(sh, i):
@@ -547,7 +618,9 @@ class StmtMixin:
                 out.append(b)
         # after the loop
         sa = st0.copy()
-        self.havoc_frame(sa, fields, names, pre_env)
+        if allocs:
+            nf = fresh_int('front'); sa.assume(nf >= st0.front); sa.front = nf
+        self.havoc_frame(sa, fields, names, pre_env, st0)
         self.loop_unchanged(sa, st0, it)
         for e, f in inv_terms(sa, n):
             sa.assume(f)
@@ -564,7 +637,8 @@ class StmtMixin:
     def same_collection(self, st, st0, src):
         r = Val.r(src.t)
         if base_type(src.ty) == "dict":
-            return z3.And(z3.Select(st.field("$dkeys"), r) == z3.Select(st0.field("$dkeys"), r))
+            return z3.And(z3.Select(st.field("$dkeys"), r) == z3.Select(st0.field("$dkeys"), r),
+                          z3.Select(st.field("$dhas"), r) == z3.Select(st0.field("$dhas"), r))
         return z3.Select(st.field("$elems"), r) == z3.Select(st0.field("$elems"), r)
 
     def ex_While(self, st0, s):
@@ -577,7 +651,7 @@ class StmtMixin:
         names = self.assigned_names(s.body)
 
         def inv_terms(state):
-            return [(e, self.spec(state, st0, e, {})) for e in invs]
+            return [(e, self.spec(state, st0, e, {k: v for k, v in state.env.items() if isinstance(v, V)})) for e in invs]
 
         for e, f in inv_terms(st0):
             self.oblige(f"inv-init[while]: {e}", "inv-init", f, st0, s.lineno)
@@ -596,10 +670,13 @@ class StmtMixin:
                     collect.append(Res(s2))
             return outs
 
+        self._pre_names = self.state_names(st0)
         fields, allocs = self.loop_frame(st0.copy(), lambda st_: iteration(st_, None))
         out = []
         sh = st0.copy()
-        self.havoc_frame(sh, fields, names, pre_env)
+        if allocs:
+            nf = fresh_int('front'); sh.assume(nf >= st0.front); sh.front = nf
+        self.havoc_frame(sh, fields, names, pre_env, st0)
         for e, f in inv_terms(sh):
             sh.assume(f)
         exits = []
